@@ -140,8 +140,8 @@ CHANGES = {
     'IntOpt': [['9']],
     'StrOpt': [['other text'], []],
     'CommaOpt': [['q'], ['q,r'], []],
-    'LineOpt': [['m1'], ['m1', 'm2 y'], []],
-    'SocksPort': [['9150'], ['9150 IsolateSOCKSAuth', 'unix:/t'], []],
+    'LineOpt': [['m1'], ['m1', 'm2 y'], [], ['m1', 'm2 y', 'm3', 'm4']],
+    'SocksPort': [['9150'], ['9150 IsolateSOCKSAuth', 'unix:/t'], [], ['9150', '9151', '9152 IsolateDestAddr']],
 }
 
 
@@ -159,7 +159,9 @@ def events_B():
         for n2 in B_OPTIONS:
             if n2 != n1:
                 out.append(('changed2', n1, 0, n2, 0))
-                out.append(('changed2', n1, 1, n2, len(CHANGES[n2]) - 1))
+                unset_idx = CHANGES[n2].index([]) if [] in CHANGES[n2] else len(CHANGES[n2]) - 1
+                out.append(('changed2', n1, 1, n2, unset_idx))
+                out.append(('changed2', n1, 3, n2, unset_idx))
     return out
 
 
